@@ -259,6 +259,8 @@ def o6(W, ob):
                  'the prune bound is derived from the newest received frame', 'the prune bound does not use last_recv_frame', where(clo))
 
 
+from . import helpers
+
 OBLIGATIONS = [
     ('C05.O1', 'every accepted input packet is acknowledged', 'From the end of the shape checks every path to a normal return '
      'that is not a decoder rejection passes through send_input_ack -- including the path on which the decode reference is '
@@ -274,4 +276,5 @@ OBLIGATIONS = [
     ('C05.O5', 'handshake retry and first packet', 'matched replies continue the handshake, synchronize() starts it, requests are '
      'always answered, recv_inputs is seeded with the NULL_FRAME reference.', o5),
     ('C05.O6', 'prune window covers the ack', 'the recv_inputs prune keeps the newest received frame for every window size.', o6),
+    ('C05.H', 'helpers the rules above rely on', 'the bodies of the helpers named by this property\'s rules compute what the rules assume (last_recv_frame, protocol_state_tests); see rules/helpers.py', helpers.bundle('last_recv_frame', 'protocol_state_tests')),
 ]
